@@ -114,6 +114,15 @@ def run(ctx):
     from props import schemax
     schemax.family_built(ctx, fam)   # builds (or loads) the family cache
     pairs = [(a, b) for a, b in itertools.permutations(fam, 2)]
+    if ctx.quick:
+        # focus groups: all ordered pairs within each group (in the
+        # thorough tier they are part of the full family anyway)
+        for g in schemas.FOCUS_GROUPS:
+            extra = [m for m in g if m not in fam]
+            fam = fam + extra
+            pairs += [(a, b) for a, b in itertools.permutations(g, 2)
+                      if (a, b) not in set(pairs)]
+        schemax.family_built(ctx, fam)
     k = ctx.seed % len(pairs)
     pairs = pairs[k:] + pairs[:k]
     res = runner.pmap(ctx, 'props.c02', 'one', pairs, init=('props.c02',
